@@ -15,6 +15,8 @@ import GoblVerif.Spec.C20
 import GoblVerif.Proofs.Merge
 import GoblVerif.Proofs.Payment
 import GoblVerif.Generated.MergeFacts
+import GoblVerif.Generated.TaxTotalsSrc
+import GoblVerif.Proofs.TaxTotalsSrc
 import Mathlib.Tactic.Linarith
 
 namespace GoblVerif.Props.C20
@@ -453,6 +455,8 @@ private def r20 : RateTotal := { key := "standard", country := "", ext := [], ba
 private def r20' : RateTotal := { key := "other", country := "", ext := [], base := ⟨5000, 2⟩, percent := some ⟨⟨200, 3⟩⟩, surcharge := none, amount := ⟨1000, 2⟩ }
 private def r10s : RateTotal := { key := "reduced", country := "", ext := [], base := ⟨3000, 2⟩, percent := some ⟨⟨10, 2⟩⟩, surcharge := some ⟨⟨⟨52, 3⟩⟩, ⟨156, 2⟩⟩, amount := ⟨300, 2⟩ }
 private def tA : Total := { categories := [{ code := "VAT", retained := false, rates := [r20, r10s], amount := ⟨2300, 2⟩, surcharge := some ⟨156, 2⟩, amountP := ⟨0, 0⟩ }], sum := ⟨2456, 2⟩, sumP := ⟨0, 0⟩ }
+private def rEx : RateTotal := { key := "exempt", country := "PT", ext := [("pt-exemption", "M01")], base := ⟨700, 2⟩, percent := none, surcharge := none, amount := ⟨0, 2⟩ }
+private def tC : Total := { categories := [{ code := "IRPF", retained := true, rates := [r20'], amount := ⟨1000, 2⟩, surcharge := none, amountP := ⟨100000, 4⟩ }, { code := "VAT", retained := false, rates := [rEx, r10s], amount := ⟨300, 2⟩, surcharge := some ⟨156, 2⟩, amountP := ⟨0, 0⟩ }], sum := ⟨-544, 2⟩, sumP := ⟨-54400, 4⟩ }
 private def tB : Total := { categories := [{ code := "VAT", retained := false, rates := [r20'], amount := ⟨1000, 2⟩, surcharge := none, amountP := ⟨0, 0⟩ }], sum := ⟨1000, 2⟩, sumP := ⟨0, 0⟩ }
 
 example : uniform 2 tA = true ∧ uniform 2 tB = true ∧
@@ -485,6 +489,182 @@ example : Payment.convDomain jpyEur (some ⟨1500, 0⟩) ∧ Payment.convDomain 
   constructor
   · intro a h; cases h; decide
   · intro a h; cases h
+
+/-! ## the model and the source (`namespace Src`)
+
+`Generated/TaxTotalsSrc.lean` is the translation (go2lean) of /repo/tax/totals.go
+as it stands now; its Go structs are MAPPED onto the records of Model/Merge.lean
+and its `num` calls are the fields of the class `TaxTotals.NumOps`, read here
+with `faithfulOps` (the operations of Model/Num.lean that Model/Merge.lean is
+written with).  Proved for all arguments: `Matches`, `clone`,
+`matchRoundingPrecision`.  `Clone`, `Negate` and `Merge` write in place through
+slices of pointers (go2lean_own.go); they are translated completely, and related
+to the model on summaries with one category and one rate group (`…_partial`,
+for every such summary) and on the sample summaries of this file (kernel
+evaluation) — NOT yet for lists of any length, so their shape pins in `Expect`
+stay. -/
+namespace Src
+open GoblVerif.Generated GoblVerif.TaxTotals GoblVerif.Proofs.TaxTotalsSrc
+
+theorem all_translated : TaxTotalsSrc.untranslated = [] := by decide
+
+theorem translated_as_listed :
+    TaxTotalsSrc.translated = ["RateTotal.matches", "RateTotal.Matches", "RateTotal.clone", "newCategoryTotal",
+      "newRateTotal", "matchRoundingPrecision", "CategoryTotal.PreciseAmount", "Total.PreciseSum", "Total.Category",
+      "Total.Clone", "Total.Negate", "Total.Merge", "Total.calculateBaseCategoryTotal", "Total.calculateFinalSum",
+      "Total.round", "Total.rateTotalFor"] := by decide
+
+theorem struct_Total_as_mapped :
+    TaxTotalsSrc.struct_Total = [("Categories", "[]*CategoryTotal"), ("Sum", "num.Amount"), ("sum", "num.Amount")] ∧
+    TaxTotalsSrc.structLean_Total = ("GoblVerif.Merge.Total", ["categories", "sum", "sumP"]) ∧
+    TaxTotalsSrc.structOmitted_Total = [] := by decide
+
+theorem struct_CategoryTotal_as_mapped :
+    TaxTotalsSrc.struct_CategoryTotal = [("Code", "cbc.Code"), ("Retained", "bool"), ("Rates", "[]*RateTotal"),
+      ("Amount", "num.Amount"), ("Surcharge", "*num.Amount"), ("amount", "num.Amount")] ∧
+    TaxTotalsSrc.structLean_CategoryTotal =
+      ("GoblVerif.Merge.CategoryTotal", ["code", "retained", "rates", "amount", "surcharge", "amountP"]) ∧
+    TaxTotalsSrc.structOmitted_CategoryTotal = [] := by decide
+
+theorem struct_RateTotal_as_mapped :
+    TaxTotalsSrc.struct_RateTotal = [("Key", "cbc.Key"), ("Country", "l10n.TaxCountryCode"), ("Ext", "Extensions"),
+      ("Base", "num.Amount"), ("Percent", "*num.Percentage"), ("Surcharge", "*RateTotalSurcharge"), ("Amount", "num.Amount")] ∧
+    TaxTotalsSrc.structLean_RateTotal =
+      ("GoblVerif.Merge.RateTotal", ["key", "country", "ext", "base", "percent", "surcharge", "amount"]) ∧
+    TaxTotalsSrc.structOmitted_RateTotal = [] := by decide
+
+theorem struct_RateTotalSurcharge_as_mapped :
+    TaxTotalsSrc.struct_RateTotalSurcharge = [("Percent", "num.Percentage"), ("Amount", "num.Amount")] ∧
+    TaxTotalsSrc.structLean_RateTotalSurcharge = ("GoblVerif.Merge.Surcharge", ["percent", "amount"]) ∧
+    TaxTotalsSrc.structOmitted_RateTotalSurcharge = [] := by decide
+
+theorem struct_Combo_as_mapped :
+    TaxTotalsSrc.struct_Combo = [("Category", "cbc.Code"), ("Country", "l10n.TaxCountryCode"), ("Rate", "cbc.Key"),
+      ("Percent", "*num.Percentage"), ("Surcharge", "*num.Percentage"), ("Ext", "Extensions"), ("retained", "bool")] ∧
+    TaxTotalsSrc.structLean_Combo =
+      ("GoblVerif.TaxTotals.Combo", ["category", "country", "rate", "percent", "surcharge", "ext", "retained"]) ∧
+    TaxTotalsSrc.structOmitted_Combo = [] := by decide
+
+/-- what the translation assumes beyond its general reading of Go (see the
+    header of go2lean_own.go): which slices hold no nil; which locals own a fresh
+    object; which loops write through their range variable and which pointers
+    are found by a search loop (all with write-back into the slice); the three
+    `make` calls whose nil elements are overwritten before they are read
+    (`newCategoryTotal`: length 0; `Clone`: `nt.Categories[i] = new(…)` and
+    `…Rates[j] = rt.clone()` are the first statements of the loops over the same
+    lengths); the one shared pointer (`clone` copies `Percent`, which nothing
+    writes through); `&ns`, `&x` taken after the last assignment; no unsigned
+    subtraction, no condition-controlled loop -/
+theorem assumptions_as_reviewed :
+    TaxTotalsSrc.nonNilElems = ["[]*CategoryTotal", "[]*RateTotal"] ∧
+    TaxTotalsSrc.inOutParams = [("Total.calculateBaseCategoryTotal", "ct"), ("Total.calculateFinalSum", "t"),
+      ("Total.round", "t"), ("Total.rateTotalFor", "t")] ∧
+    TaxTotalsSrc.ownedLocals = [("RateTotal.clone", "nrt"), ("newCategoryTotal", "ct"), ("newRateTotal", "rt"),
+      ("Total.Clone", "nt"), ("Total.Negate", "nt"), ("Total.Merge", "nt")] ∧
+    TaxTotalsSrc.elemCursors = [("Total.Negate", "ct := range nt.Categories"), ("Total.Negate", "rt := range ct.Rates"),
+      ("Total.calculateBaseCategoryTotal", "rt := range ct.Rates"), ("Total.calculateFinalSum", "ct := range t.Categories"),
+      ("Total.round", "ct := range t.Categories"), ("Total.round", "rt := range ct.Rates")] ∧
+    TaxTotalsSrc.foundCursors = [("Total.Merge", "catTotal in nt.Categories"), ("Total.Merge", "rateTotal in catTotal.Rates"),
+      ("Total.rateTotalFor", "catTotal in t.Categories"), ("Total.rateTotalFor", "rateTotal in catTotal.Rates")] ∧
+    TaxTotalsSrc.nilFreeMakes = [("newCategoryTotal", "make([]*RateTotal, 0)"),
+      ("Total.Clone", "make([]*CategoryTotal, len(t.Categories))"), ("Total.Clone", "make([]*RateTotal, len(ct.Rates))")] ∧
+    TaxTotalsSrc.ptrCopies = [("RateTotal.clone", "nrt.Percent = rt.Percent")] ∧
+    TaxTotalsSrc.lateAddr = [("Total.Merge", "&ns"), ("Total.calculateBaseCategoryTotal", "&x")] ∧
+    TaxTotalsSrc.mapRanges = [] ∧ TaxTotalsSrc.mapWrites = [] ∧ TaxTotalsSrc.mapNilTests = [] ∧
+    TaxTotalsSrc.natSubs = [] ∧ TaxTotalsSrc.fuelChecks = [] := by decide
+
+/-- the opaque types and their zero values: Go's zero `num.Amount` is `0` with exponent 0, a nil `Extensions` is empty -/
+theorem opaque_types_as_reviewed :
+    TaxTotalsSrc.namedTypes = [("Extensions", "map[cbc.Key]cbc.Code", "List (String × String)"),
+      ("cbc.Code", "string", "String"), ("cbc.Key", "string", "String"), ("l10n.TaxCountryCode", "string", "String"),
+      ("num.Amount", "struct{value int64; exp uint32}", "GoblVerif.Amount"),
+      ("num.Percentage", "struct{amount num.Amount}", "GoblVerif.Pct")] ∧
+    TaxTotalsSrc.opaqueZeros = [("Extensions", "(default : List (String × String))"), ("num.Amount", "(default : GoblVerif.Amount)")] ∧
+    (default : Amount) = ⟨0, 0⟩ ∧ (default : List (String × String)) = [] := by
+  refine ⟨by decide, by decide, rfl, rfl⟩
+
+/-- every `num` call is a field of `NumOps` (or the exponent), `Extensions.Equals` is the model's `extEquals` -/
+theorem primitives_as_reviewed :
+    TaxTotalsSrc.primitives = [("Extensions.Equals", "GoblVerif.Merge.extEquals {0} {1}"),
+      ("num.Amount.Add", "NumOps.add {0} {1}"), ("num.Amount.Exp", "GoblVerif.Amount.exp {0}"),
+      ("num.Amount.IsZero", "NumOps.isZero {0}"), ("num.Amount.MatchPrecision", "NumOps.matchPrecision {0} {1}"),
+      ("num.Amount.Negate", "NumOps.negate {0}"), ("num.Amount.Remove", "NumOps.remove {0} {1}"),
+      ("num.Amount.Rescale", "NumOps.rescale {0} {1}"), ("num.Amount.RescaleUp", "NumOps.rescaleUp {0} {1}"),
+      ("num.Amount.Subtract", "NumOps.sub {0} {1}"), ("num.Percentage.Equals", "NumOps.pctEquals {0} {1}"),
+      ("num.Percentage.Of", "NumOps.pctOf {0} {1}")] := by decide
+
+/-- the reading of the primitives this file uses is the one Model/Merge.lean is written with -/
+theorem faithful_reading (a b : Amount) (p q : Pct) (e : ℕ) :
+    @NumOps.add faithfulOps a b = a.add b ∧ @NumOps.sub faithfulOps a b = a.sub b ∧
+    @NumOps.negate faithfulOps a = a.negate ∧ @NumOps.rescale faithfulOps a e = a.rescale e ∧
+    @NumOps.matchPrecision faithfulOps a b = a.matchPrecision b ∧ @NumOps.pctOf faithfulOps p a = p.of a ∧
+    @NumOps.pctEquals faithfulOps p q = p.equals q :=
+  ⟨rfl, rfl, rfl, rfl, rfl, rfl, rfl⟩
+
+/-! ### regenerated definition = model, for all arguments -/
+
+/-- **the regenerated `(*RateTotal).Matches` is `RateTotal.matches`** -/
+theorem src_Matches (rt rt2 : RateTotal) :
+    @TaxTotalsSrc.RateTotal_Matches faithfulOps rt rt2 = rt.matches rt2 := Matches_eq rt rt2
+
+/-- … hence it decides "same rate group" of the specification -/
+theorem spec_of_the_source_Matches (a b : RateTotal) :
+    @TaxTotalsSrc.RateTotal_Matches faithfulOps a b = sameGroup a b := by
+  rw [src_Matches]; exact matches_is_same_group a b
+
+/-- **the regenerated `(*RateTotal).clone` returns a copy of its receiver** (it calls no primitive) -/
+theorem src_clone (rt : RateTotal) : TaxTotalsSrc.RateTotal_clone rt = some rt := clone_eq rt
+
+/-- **the regenerated `matchRoundingPrecision` is the model's**, with `currency` = "the rule key is `currency`" -/
+theorem src_matchRoundingPrecision (rr : String) (a b : Amount) :
+    @TaxTotalsSrc.matchRoundingPrecision faithfulOps rr a b = Merge.matchRoundingPrecision (rr == "currency") a b :=
+  mrp_faithful rr a b
+
+/-! ### `Clone`, `Negate`, `Merge`: nil, one row, and the samples
+
+The full statements, NOT proved here (missing: the induction over the two list
+levels for the write-back loops, `foldl_cursor_map` is the one-level lemma):
+
+    ∀ t,    TaxTotalsSrc.Total_Clone  (some t) = some t.clone
+    ∀ t,    TaxTotalsSrc.Total_Negate (some t) = some t.negate
+    ∀ t t2, TaxTotalsSrc.Total_Merge  (some t) t2 = some (t.merge t2)            -/
+
+theorem src_Clone_nil : TaxTotalsSrc.Total_Clone none = none := Clone_none
+theorem src_Negate_nil [NumOps] : TaxTotalsSrc.Total_Negate none = none := Negate_none
+
+/-- `Clone` of an empty summary, and of every summary with one category and one rate group -/
+theorem src_Clone_one_row_partial (cd : String) (ret : Bool) (r : RateTotal) (am : Amount) (su : Option Amount)
+    (ap s sp : Amount) :
+    TaxTotalsSrc.Total_Clone (some ⟨[], s, sp⟩) = some (Total.clone ⟨[], s, sp⟩) ∧
+    TaxTotalsSrc.Total_Clone (some (oneRow cd ret r am su ap s sp)) = some (oneRow cd ret r am su ap s sp).clone :=
+  ⟨Clone_empty s sp, Clone_oneRow cd ret r am su ap s sp⟩
+
+/-- `Negate` of every summary with one category and one rate group is the model's `negate`:
+    all eight amounts (category amount, precise amount, surcharge; base, amount, surcharge amount; sum, precise sum) -/
+theorem src_Negate_one_row_partial (cd : String) (ret : Bool) (r : RateTotal) (am : Amount) (su : Option Amount)
+    (ap s sp : Amount) :
+    @TaxTotalsSrc.Total_Negate faithfulOps (some (oneRow cd ret r am su ap s sp)) =
+      some (oneRow cd ret r am su ap s sp).negate :=
+  Negate_oneRow cd ret r am su ap s sp
+
+/-- on the sample summaries (one category, two and one rate groups, a category surcharge on one side, a
+    rate-group surcharge, different spellings of 20%): the regenerated `Clone`, `Negate` and `Merge`, in
+    both orders and with the negation, give what the model gives (kernel evaluation) -/
+theorem src_Clone_Negate_Merge_on_samples_partial :
+    TaxTotalsSrc.Total_Clone (some tA) = some tA.clone ∧
+    @TaxTotalsSrc.Total_Negate faithfulOps (some tA) = some tA.negate ∧
+    @TaxTotalsSrc.Total_Merge faithfulOps (some tA) tB = some (tA.merge tB) ∧
+    @TaxTotalsSrc.Total_Merge faithfulOps (some tB) tA = some (tB.merge tA) ∧
+    @TaxTotalsSrc.Total_Merge faithfulOps (some tA) tA.negate = some (tA.merge tA.negate) ∧
+    @TaxTotalsSrc.Total_Merge faithfulOps (some tB) tC = some (tB.merge tC) ∧
+    @TaxTotalsSrc.Total_Merge faithfulOps (some tC) tA = some (tC.merge tA) := by
+  refine ⟨by decide +kernel, by decide +kernel, by decide +kernel, by decide +kernel, by decide +kernel,
+    by decide +kernel, by decide +kernel⟩
+
+example : (oneRow "VAT" false r10s ⟨300, 2⟩ (some ⟨156, 2⟩) ⟨0, 0⟩ ⟨456, 2⟩ ⟨0, 0⟩).negate.categories.map (·.surcharge) =
+    [some ⟨-156, 2⟩] := by decide +kernel
+
+end Src
 
 /-! ## expectations over facts regenerated from /repo on every run
 
